@@ -68,6 +68,8 @@ impl Generator {
             #[cfg(pickle_fuzzer_verif)]
             crate::verif::note_enabled(&valid_ops);
             let chosen = self.weighted_choice(valid_ops, source);
+            #[cfg(pickle_fuzzer_verif)]
+            let chosen = crate::verif::override_choice(chosen);
             self.emit_and_process(chosen, source)?;
             #[cfg(pickle_fuzzer_verif)]
             crate::verif::record(self, "body", Some(chosen));
